@@ -279,6 +279,12 @@ func init() {
 				st.sample(map[string]any{"grammar": it.Text, "input": strconv.Quote(string(src)), "tokens": tokStr(want)})
 			}
 		}
+		if only, ok := spec.Opt["only_input"].(string); ok {
+			if u, err := strconv.Unquote(only); err == nil {
+				check([]byte(u), "replay")
+			}
+			return
+		}
 		// (2) every byte string up to length N over the per-grammar alphabet
 		maxAlpha := 8
 		if v, ok := spec.Opt["alphabet"].(float64); ok {
